@@ -57,35 +57,50 @@ def cfg_tag(cfg):
     return t
 
 
-def in_uncommitted_overwrite_window(e, events):
-    """strategy 'latest': the crash lies after the mean file of iteration k was moved into place
-    (samples and mean of iteration k-1 are gone) and before last_finished_iteration was advanced"""
+def windows(e, events):
+    """semantic position of a crash point in strategy 'latest' (iterations >= 1):
+    'mean'  : after the mean file of iteration k was moved into place and before
+              last_finished_iteration was advanced (state of iteration k-1 is gone, marker says k-1)
+    'files' : after the first sample/mean file of iteration k was replaced or removed and before the
+              marker was advanced (files of two generations are mixed)"""
     idx = e["idx"]
     commits = [x["i"] for x in events if x["kind"] == "rename" and x["path"] == "last_finished_iteration"]
     nxt = [c for c in commits if c > idx or (c == idx and e["phase"] == "before")]
     if not nxt:
-        return False
+        return set()
     j_commit = nxt[0]
     prev = [c for c in commits if c < j_commit]
     if not prev:
-        return False            # first iteration: nothing committed yet, resume starts from scratch
+        return set()            # first iteration: nothing committed yet, resume starts from scratch
     j_prev = prev[-1]
+    out = set()
+    mut = [x["i"] for x in events if j_prev < x["i"] < j_commit and x["kind"] in ("rename", "remove")
+           and x["path"].startswith("pickle/latest.")]
+    if mut and (idx > mut[0] or (idx == mut[0] and e["phase"] != "before")):
+        out.add("files")
     means = [x["i"] for x in events if j_prev < x["i"] < j_commit and x["kind"] == "rename"
-             and x["path"].endswith(("latest.mean.pickle", "latest.0.pickle"))]
-    means = [x["i"] for x in events if j_prev < x["i"] < j_commit and x["kind"] == "rename"
-             and x["path"].endswith("latest.mean.pickle")] or means[-1:]
-    if not means:
-        return False
-    j_mean = means[0]
-    return idx > j_mean or (idx == j_mean and e["phase"] != "before")
+             and x["path"].endswith("latest.mean.pickle")]
+    j_mean = means[0] if means else (mut[-1] if mut else None)
+    if j_mean is not None and (idx > j_mean or (idx == j_mean and e["phase"] != "before")):
+        out.add("mean")
+    return out
 
 
 def keyfn(outcome, e, cfg, events):
-    # mechanism key: outcome @ save strategy : semantic window, else class of the file the crash hit
-    if outcome == "resume-differs" and cfg.get("save_strategy", "latest") == "latest" \
-            and in_uncommitted_overwrite_window(e, events):
-        return f"resume-differs@{cfg_tag(cfg)}:samples-and-mean-replaced-before-commit"
-    return f"{outcome}@{cfg_tag(cfg)}:{CC.fclass(e['path'])}"
+    # mechanism key: outcome @ save strategy : semantic window, else class of the file the crash hit.
+    # For double crashes the deciding crash is the second one; its event list comes from a recording
+    # probe of the resumed run (crashcheck passes it as e["second_event"], e["second_events"]).
+    e_eff, ev_eff = e, events
+    if e.get("second_event") is not None:
+        e_eff, ev_eff = e["second_event"], e["second_events"]
+    if cfg.get("save_strategy", "latest") == "latest":
+        w = windows(e_eff, ev_eff)
+        if outcome == "resume-differs" and "mean" in w:
+            return f"resume-differs@{cfg_tag(cfg)}:samples-and-mean-replaced-before-commit"
+        if outcome.startswith("resume-raises") and "files" in w and cfg.get("n_samples"):
+            return f"resume-raises@{cfg_tag(cfg)}:list-type-changes-in-place"
+    tag = ":second-crash" if e.get("second_event") is not None else ""
+    return f"{outcome}@{cfg_tag(cfg)}:{CC.fclass(e_eff['path'])}{tag}"
 
 
 RESUME_READS = ("pickle/latest", "pickle/iteration_", "last_finished_iteration", "pickle/nifty_random_state",
